@@ -200,3 +200,36 @@ Definition mismatches (cases : list (list N * list ev * list (list N))) : list n
       if nll_eqb (run (start_of setup) es) want then go (S i) rest else i :: go (S i) rest
     end in
   go 0%nat cases.
+
+(* ---- AcquireRemoteHaltLock on a replica that is behind the primary (db.go:345) ----
+   The primary grants the lock at its own position; WaitPosExact lets the stream bring R there (the primary is halted,
+   so its position does not move); then the lock is stored.  [store_first] is the order before the repair: the lock
+   stored before the wait, so that the transactions still on their way - which clear a lock R holds - cleared it. *)
+Definition with_rlock (s : sys) (l : option (N * (N * N))) : sys :=
+  {| plog := plog s; phalt := phalt s; rlock := l; rlog := rlog s; olog := olog s; ohalt := ohalt s |}.
+Definition grant_wait (s : sys) (id : N) (store_first : bool) : sys * N :=
+  let '(s1, r) := grant s id in
+  match r with
+  | None => (s1, c_refused)
+  | Some l =>
+    let s2 := settle (S (length (plog s1))) (if store_first then with_rlock s1 (Some l) else s1) in
+    if (fst (snd l) =? fst (pos_of (rlog s2))) && (snd (snd l) =? snd (pos_of (rlog s2)))
+    then ((if store_first then s2 else with_rlock s2 (Some l)), c_ok)
+    else (with_rlock (release_primary s2 (fst l)) None, c_refused)
+  end.
+(* the state after [setup] in which R lacks the primary's last [k] transactions *)
+Definition behind_state (setup : list N) (k : nat) : sys :=
+  let s := start_of setup in
+  {| plog := plog s; phalt := phalt s; rlock := rlock s; rlog := skipn k (plog s); olog := olog s; ohalt := ohalt s |}.
+(* what the harness observes of it: result, the primary's and the replica's position, the lock each of them has *)
+Definition behind_obs (setup : list N) (k : nat) (id : N) : list N :=
+  let '(s', c) := grant_wait (behind_state setup k) id false in
+  [c; fst (pos_of (plog s')); snd (pos_of (plog s')); fst (pos_of (rlog s')); snd (pos_of (rlog s')); id_of (phalt s'); id_of (rlock s')].
+Definition mismatches_behind (cases : list (list N * nat * N * list N)) : list nat :=
+  let fix go (i : nat) (cs : list (list N * nat * N * list N)) : list nat :=
+    match cs with
+    | [] => []
+    | (setup, k, id, want) :: rest => if nl_eqb (behind_obs setup k id) want then go (S i) rest else i :: go (S i) rest
+    end in
+  go 0%nat cases.
+
